@@ -57,22 +57,26 @@ func (b *B) switchExhaustiveOn(rule, construct string, fc *FC, v *RF, t types.Ty
 	}
 	seen := map[string]bool{}
 	hasPanicDefault := false
-	fc.Ctx.Instrs(func(in ssa.Instruction) {
-		ifi, ok := in.(*ssa.If)
-		if !ok {
-			return
-		}
-		c := fc.Val(ifi.Cond)
-		for cn, cv := range consts {
-			if c.Equal(b.X.S.Cmp("==", v, cv)) {
-				seen[cn] = true
-				// the false edge of the last case leading to a panic = default panics
-				if _, isPanic := ifi.Block().Succs[1].Instrs[len(ifi.Block().Succs[1].Instrs)-1].(*ssa.Panic); isPanic {
-					hasPanicDefault = true
+	// the dispatch may be delegated to a helper that receives the operand
+	for _, sfc := range fc.BoundCallees(2) {
+		fc := sfc
+		fc.Ctx.Instrs(func(in ssa.Instruction) {
+			ifi, ok := in.(*ssa.If)
+			if !ok {
+				return
+			}
+			c := fc.Val(ifi.Cond)
+			for cn, cv := range consts {
+				if c.Equal(b.X.S.Cmp("==", v, cv)) {
+					seen[cn] = true
+					// the false edge of the last case leading to a panic = default panics
+					if _, isPanic := ifi.Block().Succs[1].Instrs[len(ifi.Block().Succs[1].Instrs)-1].(*ssa.Panic); isPanic {
+						hasPanicDefault = true
+					}
 				}
 			}
-		}
-	})
+		})
+	}
 	var missing []string
 	for cn := range consts {
 		if !seen[cn] {
